@@ -19,7 +19,7 @@ import traceback
 from . import env
 from .findings import Findings
 
-EVIDENCE_DIR = os.path.join(env.ROOT, "evidence")
+EVIDENCE_DIR = os.environ.get("DTVERIF_EVIDENCE_DIR") or os.path.join(env.ROOT, "evidence")
 REPLAY_DIR = os.path.join(EVIDENCE_DIR, "replays")
 MAX_REPLAYS = 12
 MAX_SAMPLES = 5
